@@ -237,7 +237,7 @@ func c08IDTarget(name string) string {
 // named by its ID type or by its tag, with the tagged ON DELETE action; other fields get none.
 func HC08_foreignKeys() {
 	pkg := skelPkg()
-	named := skelNamed(pkg, "Item", types.NewStruct(nil, nil))
+	named := skelNamed(pkg, "It", types.NewStruct(nil, nil)) // a short table name: the symbolic ID type / tag can name the table itself
 	typeName := vfString("idtype", 1, vfParam("C08.idtype", 4), "Ident")
 	isInt64 := vfChoice("int64", 2) == 1
 	under := types.Typ[types.Int64]
@@ -262,7 +262,7 @@ func HC08_foreignKeys() {
 	// reference
 	want := ""
 	if isInt64 {
-		if t := c08IDTarget(typeName); t != "" && vfFork(t != "Item") {
+		if t := c08IDTarget(typeName); t != "" && vfFork(t != "It") {
 			want = t
 		}
 	}
@@ -293,7 +293,7 @@ func HC08_foreignKeys() {
 		return
 	}
 	vfAssert(count == 1, "C08/exactly-one-foreign-key-constraint-per-foreign-key-field")
-	head := "ALTER TABLE items ADD FOREIGN KEY(Ref) REFERENCES " + gen.SQLTableName(sql.TableName(want))
+	head := "ALTER TABLE its ADD FOREIGN KEY(Ref) REFERENCES " + gen.SQLTableName(sql.TableName(want))
 	i := strings.Index(text, head)
 	vfAssert(i >= 0, "C08/foreign-key-references-the-table-named-by-the-id-type-or-tag")
 	if i < 0 {
